@@ -27,6 +27,7 @@ structure DState where
   clock : Clock.Ctl := Clock.init ⟨0, 0, 0⟩ ⟨0, 0, 0⟩
   clockVariant : Bool := true
   proto : Proto.St := {}
+  protoCov : List String := []      -- (action @ program counter) pairs followed since the last `proto cov`
   webq : WebQ.Q := { cap := 1 }
   -- C12 Tree
   tree : Tree.DSt := {}
@@ -64,9 +65,19 @@ def handle (st : DState) (line : String) : DState × String :=
     let (c, out) := Clock.drive st.clockVariant st.clock rest
     ({ st with clock := c }, out)
   | "tick" :: rest => (st, Tick.drive rest)
+  | ["proto", "cov"] =>
+    ({ st with protoCov := [] }, "[" ++ ",".intercalate st.protoCov ++ "]")
   | "proto" :: rest =>
     let (p, out) := Proto.drive st.proto rest
-    ({ st with proto := p }, out)
+    let cov := match rest with
+      | "act" :: a =>
+        if out.startsWith "ok" then
+          match Proto.covKey st.proto a with
+          | some k => if st.protoCov.contains k then st.protoCov else k :: st.protoCov
+          | none => st.protoCov
+        else st.protoCov
+      | _ => st.protoCov
+    ({ st with proto := p, protoCov := cov }, out)
   | "webq" :: rest =>
     let (w, out) := WebQ.drive st.webq rest
     ({ st with webq := w }, out)
